@@ -57,6 +57,11 @@ pub mod gen {
             json!({"a": {"a": 1}, "b": {"a": {"a": 2}}}),
             json!([[3, 1, 2], [1], [], [5, 4]]),
             json!([{"ключ": 1}, {"k": [2]}]),
+            json!({"a\u{7f}b": 1, "a/b": 1, "k": {"a/b": 2}}),
+            json!([{"a/b": 1}, {"a/b": 2}, {"a": [9, 3, 9], "b": []}, {"a": [1, 2]}]),
+            json!([[1, 2, 3], [3, 2, 1], [1], [], [1, 1]]),
+            json!(["x", "y", "x", "x"]),
+            json!([0, 1, 2, 3, 4, 5, 6, 7, 8, 9, 10, 11]),
             json!({"ä": {"ö": [1, {"ü": 2}], "k": 3}, "z": [{"ß": {"k": 4}}, 5]}),
             json!([18446744073709551615u64, 18446744073709551614u64, 1]),
             json!([0, 1, 2, 3, 4, 5, 6]),
@@ -111,6 +116,12 @@ pub mod gen {
             cmp(Lt(cur(vec![sn("a")]), cur(vec![sn("b")]))),                // @.a < @.b
             cmp(Eq(cur(vec![sn("a")]), rootq(vec![sn("a")]))),              // @.a == $.a
             cmp(Eq(cur(vec![]), rootq(vec![SingularQuerySegment::Index(0)]))), // @ == $[0]
+            t(rel(vec![Segment::Selector(Selector::Wildcard), name("a")])),   // @.*.a   (the first intermediate node may lead nowhere)
+            t(rel(vec![Segment::Selector(Selector::Slice(Some(0), Some(3), None)), name("a")])), // @[0:3].a
+            cmp(Eq(cur(vec![sn("'a\\/b'")]), lit_i(1))),                       // @['a\/b'] == 1
+            cmp(Eq(cur(vec![]), lit_f(1e19))),                                 // @ == 1e19
+            cmp(Lt(cur(vec![]), lit_f(1e20))),                                 // @ < 1e20
+            cmp(Eq(cur(vec![SingularQuerySegment::Index(-2)]), lit_i(1))),     // @[-2] == 1
             cmp(Eq(cur(vec![SingularQuerySegment::Index(0)]), lit_i(1))),   // @[0] == 1
             cmp(Eq(cur(vec![SingularQuerySegment::Index(-1)]), lit_i(1))),  // @[-1] == 1
             cmp(Eq(cur(vec![]), lit_s("a"))),                               // @ == 'a'
@@ -127,12 +138,18 @@ pub mod gen {
             t(Test::Function(Box::new(TestFunction::Search(arg_rel(vec![]), arg_s("a"))))),                                       // search(@, 'a')
             t(Test::Function(Box::new(TestFunction::Match(arg_rel(vec![name("a")]), arg_s("[ab]"))))),                            // match(@.a, '[ab]')
             nt(Test::Function(Box::new(TestFunction::Match(arg_rel(vec![]), arg_s("a."))))),                                      // !match(@, 'a.')
+            cmp(Eq(Comparable::Function(TestFunction::Length(Box::new(arg_rel(vec![])))), lit_f(2.0))),                           // length(@) == 2.0
+            cmp(Lte(Comparable::Function(TestFunction::Count(arg_rel(vec![Segment::Selector(Selector::Wildcard)]))), lit_f(2.0))), // count(@.*) <= 2.0
+            cmp(Eq(Comparable::Function(TestFunction::Value(arg_rel(vec![name("a"), Segment::Selector(Selector::Filter(cmp(Gt(cur(vec![]), lit_i(5)))))]))), cur(vec![sn("zz")]))), // value(@.a[?@ > 5]) == @.zz
+            cmp(Eq(Comparable::Function(TestFunction::Value(arg_rel(vec![name("a"), Segment::Selector(Selector::Slice(Some(0), Some(0), None))]))), cur(vec![sn("b")]))),           // value(@.a[0:0]) == @.b
         ]
     }
     /// logical formulas over atoms: every atom, and !, &&, || combinations with <= 3 atoms (seeded sample of the pairs/triples)
     pub fn filters(rng: &mut Rng, n_combo: usize) -> Vec<Filter> {
         let a = atoms();
         let mut out = a.clone();
+        // the plain negation of every atom
+        out.extend(a.iter().map(|f| Filter::Atom(FilterAtom::Filter { expr: Box::new(f.clone()), not: true })));
         let pick = |rng: &mut Rng| a[rng.below(a.len())].clone();
         for _ in 0..n_combo {
             let (x, y, z) = (pick(rng), pick(rng), pick(rng));
